@@ -328,7 +328,7 @@ def run_check(prop, tier, seed, replay=None):
     for b in broken[:5]:
         print('  broken:', b[0], '-', b[1][:300])
     for (c, r, m) in disagreements[:3]:
-        print('  disagreement:', json.dumps(common.jsonable({'case': c, 'real': r, 'model': m}))[:1500])
+        print('  disagreement:', json.dumps(common.jsonable({'case': c, 'real': r, 'model': m}))[:600])
     for (c, r, v) in new_viol[:5]:
         print('  violation:', v.get('kind'), '-', str(v.get('detail'))[:300])
     return exit_code
